@@ -828,6 +828,16 @@ func (w *world) metricScenario(plans [][]planOp) {
 	if len(exp.shutdowns) > 1 {
 		r.Violate(prop, "shutdown-twice", "exporter-shutdown-twice/metric", "the periodic reader's exporter was shut down %d times", len(exp.shutdowns))
 	}
+	// nothing is handed to the exporter once its own Shutdown has returned - whatever the provider's Shutdown
+	// returned: the periodic reader joins its run loop before it shuts the exporter down (after seeded change
+	// C15-k, which stops waiting for the run loop when the caller's context is done)
+	for _, sd := range exp.shutdowns {
+		for _, at := range exp.exports {
+			if sd.ret != 0 && at > sd.ret {
+				r.Violate(prop, "export-after-shutdown", "export-after-exporter-shutdown/metric", "Export was called at %d on the periodic reader's exporter, whose Shutdown (invoked %d by %s) had returned at %d", at, sd.inv, sd.task, sd.ret)
+			}
+		}
+	}
 	for _, o := range w.ops {
 		if o.Kind != "shutdown" || o.Ret == 0 {
 			continue
